@@ -191,6 +191,19 @@ pub fn run(ctx: &mut Ctx) {
         let l = rng.below(8);
         let raw: Vec<u8> = (0..l).map(|_| rng.next_u64() as u8).collect();
         totality(ctx, &raw, "random-bytes", false);
+        // escapes inside plain names, cut at every length
+        {
+            let base = *rng.pick(&["{\\u{41}}", "{caf\\u{e9}}", "{a\\u{0041}}", "{a\\u0041b,c}", "{\\u{0041", "{x, y\\u{1F48E}z}", "{a\\\\b}"]);
+            let b = base.as_bytes();
+            for cut in (1..=b.len()).rev().take(12) {
+                totality(ctx, &b[..cut], "escape-in-plain-name", false);
+            }
+        }
+        // a plain name does not start with a digit or a sign: number-like tokens that are not
+        // integers are errors, not names
+        for t in ["{1e5}", "{2E10,a}", "{10e2b}", "{12abc}", "{1a5}", "{1.5}", "{-1e5}", "{+a}", "{-a}", "{0x10}"] {
+            totality(ctx, t.as_bytes(), "digit-or-sign-led-token", true);
+        }
         // names are strings: input that is not UTF-8 cannot be a key path, quoted or not
         for base in [plain.as_bytes(), spaced.as_bytes()] {
             let mut m = base.to_vec();
